@@ -168,10 +168,10 @@ var flowPlans = map[string]flowPlan{
 	}},
 	"endSession": {op: "EndSession", class: "redirect", prep: func(d *opdrv.Driver) M {
 		_, _, idt := tokensFor(d, "cw")
-		return M{"hint": M{"kind": "valid", "id": idt}, "client": "", "uri": "plcw", "state": "ls1"}
+		return M{"hint": M{"kind": "valid", "id": idt}, "client": "", "uri": "plcw", "state": "ls1", "host": "A"}
 	}},
 	"endSessionNoHint": {op: "EndSession", class: "redirect", prep: func(d *opdrv.Driver) M {
-		return M{"hint": M{"kind": "none", "id": "none"}, "client": "cw", "uri": "plcw", "state": ""}
+		return M{"hint": M{"kind": "none", "id": "none"}, "client": "cw", "uri": "plcw", "state": "", "host": "A"}
 	}},
 }
 
